@@ -2,7 +2,7 @@ SPECIFICATION Spec
 CONSTANTS
   Transport = "tls"
   ResidueAfterFailure = FALSE
-  ShortCookieRead = TRUE
+  ShortCookieRead = FALSE
   DialResetsData = TRUE
   Alpns <- AlpnsTls
   Alphabet <- AlphaAll
